@@ -2,7 +2,7 @@
 from __future__ import annotations
 
 from .harness import Explorer
-from .rules import part, wrappers, pent, sysz, mcsops
+from .rules import part, wrappers, pent, sysz, mcsops, cnf, enum
 
 
 def _class_of(table, key):
@@ -74,6 +74,21 @@ def C04(rep, prog, tier):
     part.check_all(rep, ex)
 
 
+def C15(rep, prog, tier):
+    rep.explanation = ("C15: CNF.roles/literals/constants/pool on the Tseitin step; MCS.violated/block/minimal/loop on the rc2 "
+                       "enumeration (remove_supersets decided on three abstract sets with ⊆ uninterpreted); decides the shape of the "
+                       "encoding and of the enumeration, not z3's tactic or RC2")
+    ex = Explorer(prog, rep)
+    cnf.roles(rep, ex)
+    cnf.literals(rep, ex)
+    cnf.constants_handling(rep, ex)
+    cnf.pool(rep, ex)
+    enum.violated(rep, ex)
+    enum.block(rep, ex)
+    enum.minimal(rep, ex)
+    enum.loop(rep, ex)
+
+
 def C06(rep, prog, tier):
     rep.explanation = ("C06: tolerance-partition obligations PART.* on consistency/consistency_indices (scope of every "
                        "satisfiability test, split, balance, terminal decisions, advance, siblings); diagnostics flags; refusal")
@@ -85,4 +100,4 @@ def C06(rep, prog, tier):
     wrappers.shortcut_dominance(rep, ex)
 
 
-CHECKS = {"C01": C01, "C02": C02, "C03": C03, "C04": C04, "C06": C06}
+CHECKS = {"C01": C01, "C02": C02, "C03": C03, "C04": C04, "C06": C06, "C15": C15}
